@@ -461,8 +461,6 @@ class Ref:
                 continue
             if not self.takes_extra(C):
                 raise Reject('unknown key ' + key)
-            if key in ('_yatiml_extra', 'self'):
-                raise Reject('reserved key')
             extra[key] = self.load_any(b)
         for name, T, req in params:
             if req and name not in kw:
